@@ -28,8 +28,10 @@ def exitOf (isReq : Bool) (maxSize maxBlk key blk length plen af : Nat) : Option
     if tokLen + optBytes + blkBytes > maxSize then none
     else some (adlExitReq maxSize tokLen optBytes lastOpt b maxBlk length 1 af)
   else
-    if 4 > maxSize then none
-    else some (adlExitRsp maxSize 4 2 12 blk maxBlk length 1 af)
+    -- response: 4-byte token, Location-Path (8) of `plen` bytes if any, Content-Format 42 (2 bytes, inserted by the function)
+    let optBytes := (if plen = 0 then 0 else optEncodeSize 8 plen) + 2
+    if 4 + optBytes > maxSize then none
+    else some (adlExitRsp maxSize 4 optBytes 12 blk maxBlk length 1 af)
 
 def adlxRun (isReq : Bool) (maxSize maxBlk : Nat) : List (List Nat) → AdlSess × Nat → List String → List String
   | [], _, acc => acc.reverse
